@@ -207,7 +207,7 @@ func (g *jsGen) number() string {
 		}
 		return "15"
 	case 14:
-		return fmt.Sprintf("%dn", r.Intn(1000))
+		return fmt.Sprint(r.Intn(1000)) // (BigInt literals are not mixed into arithmetic: guard js-bigint-mix-dropped)
 	case 15:
 		return r.Pick([]string{"Infinity", "NaN", "(-0)", "(-1)", "(-Infinity)"})
 	default:
@@ -488,7 +488,10 @@ func (g *jsGen) expr(d int) string {
 		}
 		return "h(" + g.nextSite() + ")"
 	case 23:
-		return g.paren(g.expr(d+1)) + r.Pick([]string{".a", ".b", "[0]", "[\"a\"]", "[\"b-c\"]", ".length", "?.a", "?.[0]", "?.b?.c", "[\"x\"]", "[1]"})
+		if base := g.expr(d + 1); !strings.Contains(base, "?.") {
+			return g.paren(base) + r.Pick([]string{".a", ".b", "[0]", "[\"a\"]", "[\"b-c\"]", "?.a", "?.[0]", "?.b?.c", "[\"x\"]", "[1]"})
+		}
+		return g.someVar(false) + r.Pick([]string{".a", ".b", "[0]", "[\"a\"]", "[\"b-c\"]", "?.a", "?.[0]", "?.b?.c", "[\"x\"]", "[1]"})
 	case 24:
 		return g.objectLit() + r.Pick([]string{".a", "[\"a\"]", ".x", "?.k"})
 	case 25:
@@ -500,7 +503,7 @@ func (g *jsGen) expr(d int) string {
 	case 28:
 		return "(" + g.arrowFunc(d) + ")(" + g.args() + ")"
 	case 29:
-		return r.Pick([]string{"(new Object)", "new Object()", "new Array(3)", "new Error(\"m\")", "new (class{constructor(){h(" + g.nextSite() + ")}})()", "new Date(0)", "new Map([[1,2]])"})
+		return r.Pick([]string{"(new Object)", "new Object()", "new Array(3)", "new Error(\"m\")", "new (class{constructor(){h(" + g.nextSite() + ")}})()", "new Date(0)", "new Map([[1,2]])", "(5n*3n)", "BigInt(7)"})
 	case 30:
 		return g.str() + "+" + g.str() + r.Pick([]string{"", "+(" + g.expr(d+1) + ")"})
 	case 31:
@@ -633,9 +636,19 @@ func (g *jsGen) funcBodyInline() string {
 		sb.WriteString(g.stmt())
 	}
 	if g.r.Chance(2, 3) {
-		sb.WriteString("return " + g.expr(2) + ";")
+		sb.WriteString("return " + g.retExpr() + ";")
 	}
 	return sb.String()
+}
+
+// retExpr: guard js-return-comma-void — a returned expression is never the literal undefined / void x
+func (g *jsGen) retExpr() string {
+	e := g.expr(2)
+	t := strings.Trim(e, "() ")
+	if t == "undefined" || strings.HasPrefix(t, "void ") || strings.HasPrefix(t, "void(") {
+		return "null"
+	}
+	return e
 }
 
 func (g *jsGen) arrowFunc(d int) string {
@@ -704,7 +717,7 @@ func (g *jsGen) simpleStmt() string {
 	switch r.Intn(8) {
 	case 0:
 		if g.inFunc > 0 {
-			return "return " + g.expr(2) + ";"
+			return "return " + g.retExpr() + ";"
 		}
 	case 1:
 		if g.inLoop > 0 {
@@ -781,12 +794,12 @@ func (g *jsGen) stmt() string {
 			return "if(" + c + ")" + g.exprStmt() + "else if(" + g.expr(1) + ")" + g.exprStmt() + "else " + g.exprStmt()
 		case 5:
 			if g.inFunc > 0 {
-				return "if(" + c + ")return " + g.expr(2) + ";else return " + g.expr(2) + ";"
+				return "if(" + c + ")return " + g.retExpr() + ";else return " + g.retExpr() + ";"
 			}
 			return "if(" + c + ")" + g.exprStmt()
 		case 6:
 			if g.inFunc > 0 {
-				return "if(" + c + "){" + g.exprStmt() + "return " + g.expr(2) + "}" + g.exprStmt()
+				return "if(" + c + "){" + g.exprStmt() + "return " + g.retExpr() + "}" + g.exprStmt()
 			}
 			return "if(" + c + "){" + g.exprStmt() + g.exprStmt() + "}"
 		case 7:
@@ -897,8 +910,8 @@ func (g *jsGen) stmt() string {
 		return lbl + ":for(let " + i + "=0;" + i + "<2;" + i + "++){" + g.stmt() + "if(" + g.expr(2) + ")" + r.Pick([]string{"break ", "continue "}) + lbl + ";" + g.stmt() + "}"
 	case 27, 28, 29:
 		// function declaration, then call it
-		if g.depth > 2 && !g.sc.fn {
-			return g.exprStmt() // no functions in blocks (Annex B)
+		if !g.sc.fn || g.depth > 1 {
+			return g.exprStmt() // guard js-block-function-unwrapped: function declarations only directly in a function body or at program level
 		}
 		g.push(true)
 		savedGen, savedLoop, savedLabels := g.inGen, g.inLoop, g.labels
@@ -942,7 +955,7 @@ func (g *jsGen) stmt() string {
 	case 36:
 		// expression sequences that merge into following statements
 		if g.inFunc > 0 {
-			return g.exprStmt() + g.exprStmt() + "return " + g.expr(2) + ";"
+			return g.exprStmt() + g.exprStmt() + "return " + g.retExpr() + ";"
 		}
 		return g.exprStmt() + g.exprStmt() + "if(" + g.expr(2) + ")" + g.exprStmt()
 	case 37:
@@ -956,7 +969,7 @@ func (g *jsGen) stmt() string {
 		return "if(" + g.expr(2) + "){var " + v + "=1}else{" + v + "=2}h(" + g.nextSite() + "," + v + ");"
 	case 40:
 		// async function (observed through the microtask drain)
-		if g.depth > 2 && !g.sc.fn {
+		if !g.sc.fn || g.depth > 1 {
 			return g.exprStmt()
 		}
 		g.push(true)
@@ -1043,8 +1056,8 @@ func genJSProgram(r *core.Rand) (src string, strict bool) {
 	for i := 0; i < n; i++ {
 		before := len(g.sc.vars)
 		st := g.stmt()
-		if r.Chance(2, 3) {
-			// keep going after run-time errors: later statements stay observable
+		if r.Chance(2, 3) && !strings.HasPrefix(st, "function") && !strings.HasPrefix(st, "async function") {
+			// keep going after run-time errors: later statements stay observable (function declarations stay at program level)
 			st = "try{" + st + "}catch(E){h(\"E\",E)}"
 			// declarations made inside the try block are block scoped: forget the lexical ones (and block-level functions)
 			keep := g.sc.vars[:before:before]
